@@ -127,6 +127,11 @@ func c01(r *Run) {
 		return true
 	}
 
+	// table maintenance (bucket refreshes, questionable pings) runs beside everything else
+	if ch.Chance(1, 3, "cfg.maintainer") {
+		r.GoBackground("maintainer", func() { s.TableMaintainer() })
+		r.Probe("table-maintainer-running")
+	}
 	// ---- preparation: reach a non-empty state by honest traffic
 	nping := ch.Intn(min(len(pop.Peers), 12)+1, "prep.pings")
 	for i := 0; i < nping; i++ {
@@ -192,7 +197,7 @@ func c01(r *Run) {
 	for i := 0; i < nstorm; i++ {
 		at := time.Duration(r.Rng.Int63n(int64(span)))
 		lvl := ch.Pick([]int{4, 4, 2}, "storm.level")
-		r.After(at, "storm", func() {
+		r.AfterNet(at, "storm", conn, func() {
 			var b []byte
 			switch lvl {
 			case 0:
